@@ -1,6 +1,8 @@
 """C16 — non-interactive mode is confined to the run that requested it.  Model A."""
 from __future__ import annotations
 
+from typing import Any
+
 from .. import common, lifecycle
 from . import _life
 
@@ -38,6 +40,59 @@ def oracle_serial(r: dict) -> list[str]:
     return msgs
 
 
+def plugin_failure_case(mode: str, hook_name: str) -> dict:
+    """A non-interactive run during which a third-party plugin's hook raises in the main process (here: on an event relayed from
+    the child), so that the run's context is left by an exception: when the run is over the mode must be over too."""
+    import asyncio
+    import datetime
+    from .. import fakes, loop as ctl
+    from nextline.spawned import RunResult
+
+    async def main() -> dict:
+        from nextline import events as E
+        from nextline.plugin.spec import hookimpl
+        sc = lifecycle.Scenario(0, 1, False, False)
+        await sc.setup()
+        nl = sc.nl
+
+        async def boom(self: Any, context: Any, event: Any) -> None:
+            raise RuntimeError(f'plugin failure in {hook_name} (injected by the harness)')
+        boom.__name__ = hook_name
+        Bad = type('Bad', (), {hook_name: hookimpl(boom)})
+        nl.register(Bad())
+        await sc.op('start')
+        await sc.op(mode)
+        now = datetime.datetime.utcnow
+        live = sc.world.live()
+        if live:
+            c = live[-1]
+            # (one event only: once the relay task has died of the exception, anything left in the channel makes the session's drain loop
+            # spin until its wall-clock time-out, which the virtual-time loop cannot wait for)
+            c.emit(E.OnStartTrace(started_at=now(), run_no=1, trace_no=1, thread_no=1, task_no=None))
+            await lifecycle.settle()
+            c.exit(RunResult(ret=5), exitcode=0)
+        await lifecycle.settle()
+        out: dict = {'mode': mode, 'hook': hook_name, 'state': nl.state, 'enabled': nl.continuous_enabled}
+        # the next, plain run must be interactive: its prompt stays unanswered
+        await sc.op('reset - - - -')
+        await sc.op('run')
+        rep = await sc.op('prompt')
+        out['commands_in_plain_run'] = rep.split().count('cmd')
+        for c in sc.world.live():
+            c.exit(RunResult(ret=None), exitcode=0)
+        await lifecycle.settle()
+        try:
+            await asyncio.wait_for(nl.close(), timeout=5)
+        except BaseException:  # noqa
+            pass
+        return out
+    fakes.install()
+    try:
+        return ctl.run(main, ctl.Fifo())
+    except (Exception, ctl.StepBudgetExceeded) as e:  # noqa
+        return {'mode': mode, 'hook': hook_name, 'error': f'{type(e).__name__}: {e}'}
+
+
 def run(chk: common.Check) -> None:
     chk.cov.rule = ('serial histories (as C01) mixing run, run_and_continue, run_continue_and_wait, reset, close — accepted or refused — with the '
                     'simulated child emitting prompts: a continuous run\'s prompt must be answered by the Continue plugin, an interactive run\'s '
@@ -60,4 +115,22 @@ def run(chk: common.Check) -> None:
         if m:
             oracle_fail.append(({'init': r['init'], 'ops': r['ops'], 'schedule': r['schedule'], 'implementation': r['impl']}, m, None))
     dis = _life.compare(rows, KINDS)
+    for mode in ('rac', 'rcw'):
+        for hook_name in ('on_start_trace',):
+            if mode == 'rcw':
+                continue          # run_continue_and_wait blocks the driver until the run ends: covered through run_and_continue
+            r = plugin_failure_case(mode, hook_name)
+            chk.cov.case(('plugin-failure', mode, hook_name))
+            chk.cov.count('kinds', 'plugin-hook-raises-during-non-interactive-run')
+            m = []
+            if 'error' in r:
+                m.append(f'scenario failed: {r["error"]}')
+            else:
+                if r['state'] != 'running' and r['enabled']:
+                    m.append(f"a plugin's {hook_name} raised during a non-interactive run; the run is over (state {r['state']}) but continuous_enabled is still True")
+                if r['commands_in_plain_run']:
+                    m.append(f"after a non-interactive run during which a plugin's {hook_name} raised, the next plain run() was auto-answered "
+                             f"({r['commands_in_plain_run']} command(s) reached the child)")
+            if m:
+                oracle_fail.append(({'plugin_failure': r}, m, None))
     _life.finish(chk, 'C16', oracle_fail, dis, 'continuous flag, its publications, commands reaching the child')
